@@ -34,6 +34,9 @@ VARIANTS = {
                  ldflags=["-fsanitize=address,undefined"]),
     # optimised, no sanitizer: for the very large enumerations whose oracle is a reference model
     "fast": dict(cc="clang", cflags=["-O2", "-g"], ldflags=[]),
+    # C17: no sanitizer; the library's writable data sections are renamed so that its global variables form one
+    # region (hwdata) that the harness can protect; not position independent so that nm addresses are run-time addresses
+    "mon": dict(cc="clang", cflags=["-O1", "-g", "-fno-omit-frame-pointer", "-fno-pie"], ldflags=["-no-pie"], rename_data=True),
     "tsan": dict(cc="clang",
                  cflags=["-O1", "-g", "-fno-omit-frame-pointer", "-fsanitize=thread"],
                  ldflags=["-fsanitize=thread"]),
@@ -140,10 +143,31 @@ def build_lib(variant):
         with ThreadPoolExecutor(16) as ex:
             changed = list(ex.map(lambda j: _compile(*j), jobs))
         lib = os.path.join(out, "libhwloc.a")
+        objs = [j[3] for j in jobs]
+        if v.get("rename_data"):
+            # archive copies whose .data/.bss are renamed to "hwdata" (the originals stay for dependency tracking)
+            rdir = os.path.join(out, "lib-renamed")
+            os.makedirs(rdir, exist_ok=True)
+            robjs = []
+            for (o, ch) in zip(objs, changed):
+                r = os.path.join(rdir, os.path.basename(o))
+                if ch or not os.path.exists(r):
+                    subprocess.check_call(["objcopy", "--rename-section", ".bss=hwdata,alloc,load,data,contents",
+                                           "--rename-section", ".data=hwdata", o, r])
+                    # completeness: no writable data may stay outside hwdata
+                    hdr = subprocess.run(["objdump", "-h", r], stdout=subprocess.PIPE, text=True).stdout
+                    for line in hdr.splitlines():
+                        f = line.split()
+                        if len(f) >= 3 and f[1] in (".bss", ".data", ".tbss", ".tdata") and int(f[2], 16) != 0:
+                            raise SystemExit("mon build: %s still has a %s section of %s bytes" % (r, f[1], f[2]))
+                        if len(f) >= 3 and (f[1].startswith(".bss.") or (f[1].startswith(".data.") and not f[1].startswith(".data.rel.ro"))) and int(f[2], 16) != 0:
+                            raise SystemExit("mon build: %s has an unexpected writable section %s" % (r, f[1]))
+                robjs.append(r)
+            objs = robjs
         if any(changed) or not os.path.exists(lib):
             if os.path.exists(lib):
                 os.unlink(lib)
-            subprocess.check_call(["ar", "rcs", lib] + [j[3] for j in jobs])
+            subprocess.check_call(["ar", "rcs", lib] + objs)
         return lib
 
 
